@@ -27,6 +27,8 @@ import Glom.Model.C15Env
     target / sub-spec keys point into h0
     init allocates        `init()` returns a new object or an immutable immediate
                           (`InitOK`: … and a copying factory copies a list / tuple / dict of h0)
+    HandlerLaw h0 env     every `iterate` handler only READS input objects and yields input values
+                          (true of the catalogue: `c15_catalogue_handlers_lawful`)
     WFConv env            the extracted `except` clauses (c15_facts_wf, re-checked every run)
     WF env                … and chain objects are iterated with `iter` (flatten(levels ≥ 2) only)
     CacheOK H r           the registry's memo holds first-lookup answers only (true of every
@@ -57,7 +59,7 @@ theorem c15_spec_env_wf : WFConv specEnv = true ∧
     `sv0 = init()` as a value, the outcome is `List.foldlM` (= `functools.reduce` in the
     exception monad) of the operator over the items — the same error, the same
     immediate, or an object at a NEW address holding exactly the reduced content. -/
-theorem c15_fold_eq_foldl (env : Env) (hwf : WFConv env = true) {h0 h : Heap} (c : Ctx h0 h)
+theorem c15_fold_eq_foldl (env : Env) (hwf : WFConv env = true) {h0 h : Heap} (c : Ctx h0 h) (hH : HandlerLaw h0 env)
     (sub : List Val) (init : Init) (op : Op) (hinit : InitOK h0 init) (target : Val)
     (hsub : ∀ k ∈ sub, Val.inb h0.length k = true) (ht : Val.inb h0.length target = true)
     (items : List Val) (hitems : refItems env h0 sub target = .ok items)
@@ -67,7 +69,7 @@ theorem c15_fold_eq_foldl (env : Env) (hwf : WFConv env = true) {h0 h : Heap} (c
     | .error e => out.1 = .error e
     | .ok (.imm v) => out.1 = .ok v
     | .ok (.cell o) => ∃ a, out.1 = .ok (.ref a) ∧ h.length ≤ a ∧ out.2[a]? = some o := by
-  have hg := (glomit_spec c env (WFConv_parts hwf).1 (mkFold sub init op) hinit hsub ht).2
+  have hg := (glomit_spec c env hH (WFConv_parts hwf).1 (mkFold sub init op) hinit hsub ht).2
   simp only [refSpec, mkFold, hitems, refKind, withInit, hsv, refReduce_eq_foldlM] at hg
   simp only [mkFold]
   cases hr : items.foldlM (foldStep (pyOp op) h0) sv0 with
@@ -79,21 +81,27 @@ theorem c15_fold_eq_foldl (env : Env) (hwf : WFConv env = true) {h0 h : Heap} (c
     | cell o => obtain ⟨a, h1, h2, h3, _⟩ := hg; exact ⟨a, h1, h2, h3⟩
 
 /-- **Sum = sum.**  On int / bool items `Sum()` returns their integer sum. -/
-theorem c15_sum (env : Env) (hwf : WFConv env = true) {h0 h : Heap} (c : Ctx h0 h)
+theorem c15_sum (env : Env) (hwf : WFConv env = true) {h0 h : Heap} (c : Ctx h0 h) (hH : HandlerLaw h0 env)
     (sub : List Val) (target : Val)
     (hsub : ∀ k ∈ sub, Val.inb h0.length k = true) (ht : Val.inb h0.length target = true)
     (items : List Val) (hitems : refItems env h0 sub target = .ok items)
     (is : List Int) (hints : allInts items = some is) :
     (glomit env (mkSum sub .int) h target).1 = .ok (.int is.sum) := by
-  have hg := (glomit_spec c env (WFConv_parts hwf).1 (mkSum sub .int) (InitOK.plain h0 rfl rfl rfl) hsub ht).2
+  have hg := (glomit_spec c env hH (WFConv_parts hwf).1 (mkSum sub .int) (InitOK.plain h0 rfl rfl rfl) hsub ht).2
   simp only [refSpec, mkSum, hitems, refKind, withInit, initSV, reduce_iadd_int h0 items is 0 hints,
     RefRes.ofSV, Int.zero_add] at hg
   exact hg.1
 
+/-- `Sum(init=list)` IS eager `Flatten()`: the same `+=` loop (list.__iadd__ extends the accumulator
+    in place with any iterable) over the same fresh list. -/
+theorem c15_sum_list_eq_flatten (env : Env) (sub : List Val) (h : Heap) (target : Val) :
+    glomit env (mkSum sub .list) h target = glomit env (mkFlatten sub (.init .list)) h target := by
+  simp [glomit, mkSum, mkFlatten, runFold]
+
 /-- **Flatten = chain.from_iterable.**  Eager `Flatten()` returns a NEW list holding the
     concatenation of the items' own items (the very same element objects), or raises
     TypeError when an item is not iterable. -/
-theorem c15_flatten_eq_join (env : Env) (hwf : WFConv env = true) {h0 h : Heap} (c : Ctx h0 h)
+theorem c15_flatten_eq_join (env : Env) (hwf : WFConv env = true) {h0 h : Heap} (c : Ctx h0 h) (hH : HandlerLaw h0 env)
     (sub : List Val) (target : Val)
     (hsub : ∀ k ∈ sub, Val.inb h0.length k = true) (ht : Val.inb h0.length target = true)
     (items : List Val) (hitems : refItems env h0 sub target = .ok items) :
@@ -101,9 +109,9 @@ theorem c15_flatten_eq_join (env : Env) (hwf : WFConv env = true) {h0 h : Heap} 
     match joinWith (rawIter1 h0) items with
     | some ys => ∃ a, out.1 = .ok (.ref a) ∧ h.length ≤ a ∧ out.2[a]? = some (.list "list" ys)
     | none => out.1 = .error typeErr := by
-  have hg := (glomit_spec c env (WFConv_parts hwf).1 (mkFlatten sub (.init .list))
+  have hg := (glomit_spec c env hH (WFConv_parts hwf).1 (mkFlatten sub (.init .list))
     (InitOK.plain h0 rfl rfl rfl) hsub ht).2
-  have hin := refItems_inb c.closed env hsub ht hitems
+  have hin := refItems_inb c.closed hH hsub ht hitems
   simp only [refSpec, mkFlatten, hitems, refKind, withInit, initSV, reduce_iadd_list h0 items [],
     joinWith_raw_eq c.closed hin, Bool.false_eq_true, if_false, List.nil_append] at hg
   simp only [mkFlatten]
@@ -113,7 +121,7 @@ theorem c15_flatten_eq_join (env : Env) (hwf : WFConv env = true) {h0 h : Heap} 
 
 /-- **Lazy = eager.**  What `Flatten(init='lazy')` shows once consumed is what eager
     `Flatten()` shows: the same items in the same order, or the same TypeError. -/
-theorem c15_lazy_eq_eager (env : Env) (h0 : Heap) (hc : closedHeap h0 = true)
+theorem c15_lazy_eq_eager (env : Env) (h0 : Heap) (hc : closedHeap h0 = true) (hH : HandlerLaw h0 env)
     (sub : List Val) (target : Val)
     (hsub : ∀ k ∈ sub, Val.inb h0.length k = true) (ht : Val.inb h0.length target = true) :
     expectR env h0 (.flatten sub .lazy) target =
@@ -124,7 +132,7 @@ theorem c15_lazy_eq_eager (env : Env) (h0 : Heap) (hc : closedHeap h0 = true)
   cases hitems : refItems env h0 sub target with
   | error e => cases e <;> rfl
   | ok items =>
-    have hin := refItems_inb hc env hsub ht hitems
+    have hin := refItems_inb hc hH hsub ht hitems
     simp only [refKind, withInit, initSV, reduce_iadd_list h0 items [], joinWith_raw_eq hc hin,
       Bool.false_eq_true, if_false, if_true, List.nil_append, showRef, showNew, beq_self_eq_true]
     cases joinWith (rawIter1 h0) items with
@@ -135,7 +143,8 @@ theorem c15_lazy_eq_eager (env : Env) (h0 : Heap) (hc : closedHeap h0 = true)
     returns a NEW list holding the (n+1)-fold `chain.from_iterable` of the items, or
     raises TypeError when some level meets a non-iterable; `levels = 0` returns the
     target itself; negative levels raise ValueError. -/
-theorem c15_levels (env : Env) (hwf : WF env = true) {h0 h : Heap} (c : Ctx h0 h)
+theorem c15_levels (env : Env) (hwf : WF env = true) {h0 h : Heap} (c : Ctx h0 h) (hH : HandlerLaw h0 env)
+    (hiter : env.run "iter" = rawIter)
     (sub : List Val) (n : Nat) (target : Val)
     (hsub : ∀ k ∈ sub, Val.inb h0.length k = true) (ht : Val.inb h0.length target = true)
     (items : List Val) (hitems : refItems env h0 sub target = .ok items) :
@@ -143,8 +152,8 @@ theorem c15_levels (env : Env) (hwf : WF env = true) {h0 h : Heap} (c : Ctx h0 h
     match joinN h0 (n + 1) items with
     | some ys => ∃ a, out.1 = .ok (.ref a) ∧ h.length ≤ a ∧ out.2[a]? = some (.list "list" ys)
     | none => out.1 = .error typeErr := by
-  obtain ⟨hcatch, hchain, _⟩ := WF_parts hwf
-  have hg := (flattenFn_spec c env (levels := (n : Int) + 1) (fun _ => hchain) hcatch sub (.init .list)
+  obtain ⟨hcatch, hchain, _⟩ := WF_parts hwf hiter
+  have hg := (flattenFn_spec c env hH (levels := (n : Int) + 1) (fun _ => hchain) hcatch sub (.init .list)
     (InitOK.plain h0 rfl rfl rfl) hsub ht).2
   have h0l : (((n : Int) + 1) == 0) = false := by
     simp only [beq_eq_false_iff_ne, ne_eq]; omega
@@ -152,7 +161,7 @@ theorem c15_levels (env : Env) (hwf : WF env = true) {h0 h : Heap} (c : Ctx h0 h
   have htn : ((n : Int) + 1).toNat - 1 = n := by omega
   rw [refFlattenFn_pos env h0 sub _ _ target h0l hneg, hitems, htn] at hg
   simp only at hg
-  have hin := refItems_inb c.closed env hsub ht hitems
+  have hin := refItems_inb c.closed hH hsub ht hitems
   rw [joinN_succ']
   cases hj : joinN h0 n items with
   | none => rw [hj] at hg; exact hg
@@ -180,7 +189,7 @@ theorem c15_levels_negative (env : Env) (sub : List Val) (init : InitArg) (l : I
 /-- **Merge: last writer wins.**  `Merge()` / `merge()` over dict items returns a NEW dict
     in which every key maps to the value of the LAST pair (over all items, in order)
     carrying that key. -/
-theorem c15_merge_last_wins (env : Env) (hwf : WFConv env = true) {h0 h : Heap} (c : Ctx h0 h)
+theorem c15_merge_last_wins (env : Env) (hwf : WFConv env = true) {h0 h : Heap} (c : Ctx h0 h) (hH : HandlerLaw h0 env)
     (sub : List Val) (target : Val)
     (hsub : ∀ k ∈ sub, Val.inb h0.length k = true) (ht : Val.inb h0.length target = true)
     (items : List Val) (hitems : refItems env h0 sub target = .ok items)
@@ -188,7 +197,7 @@ theorem c15_merge_last_wins (env : Env) (hwf : WFConv env = true) {h0 h : Heap} 
     let out := mergeFn env sub .dict .none h target
     ∃ a es, out.1 = .ok (.ref a) ∧ h.length ≤ a ∧ out.2[a]? = some (.dict "dict" es) ∧
       ∀ k, dictLookup es k = lastPair ds.flatten k := by
-  have hg := (mergeFn_spec c env (WFConv_parts hwf).1 sub .dict .none (InitOK.plain h0 rfl rfl rfl) hsub ht).2
+  have hg := (mergeFn_spec c env hH (WFConv_parts hwf).1 sub .dict .none (InitOK.plain h0 rfl rfl rfl) hsub ht).2
   have hop : refMergeOp h0 .dict .none = .ok (.update "dict") := rfl
   simp only [refMerge, hop, refSpec, hitems, refKind, withInit, initSV,
     reduce_update_dicts h0 "dict" (by decide) items ds [] hds, RefRes.ofSV] at hg
@@ -200,22 +209,23 @@ theorem c15_merge_last_wins (env : Env) (hwf : WFConv env = true) {h0 h : Heap} 
 
 /-- **Frame.**  Running one spec object on any sequence of targets leaves every
     pre-existing object exactly as it was. -/
-theorem c15_frame (env : Env) (hwf : WF env = true) (h0 : Heap) (p : Prog) (targets : List Val)
+theorem c15_frame (env : Env) (hwf : WF env = true) (h0 : Heap) (hH : HandlerLaw h0 env)
+    (hiter : env.run "iter" = rawIter) (p : Prog) (targets : List Val)
     (hcase : wfCase h0 targets = true) (hp : (progVals p).all (Val.inb h0.length) = true)
     (hinit : p.initAllocates = true) (hw : p.initWF h0 = true) :
     ∀ a, a < h0.length → (runProg env p targets h0).2[a]? = h0[a]? := by
   simp only [wfCase, Bool.and_eq_true] at hcase
-  exact (runProg_spec env hwf h0 hcase.1 p ⟨allInb hp, hinit, hw⟩ targets (allInb hcase.2)).1.2
+  exact (runProg_spec env hwf h0 hcase.1 hH hiter p ⟨allInb hp, hinit, hw⟩ targets (allInb hcase.2)).1.2
 
 /-- **Fresh.**  A container a spec object returns did not exist before this evaluation:
     its address is beyond everything allocated so far — the inputs AND the results of
     all earlier evaluations of the same spec object. -/
-theorem c15_fresh (env : Env) (hwf : WFConv env = true) {h0 h : Heap} (c : Ctx h0 h)
+theorem c15_fresh (env : Env) (hwf : WFConv env = true) {h0 h : Heap} (c : Ctx h0 h) (hH : HandlerLaw h0 env)
     (s : FoldSpec) (hinit : InitOK h0 s.init) (target : Val)
     (hsub : ∀ k ∈ s.sub, Val.inb h0.length k = true) (ht : Val.inb h0.length target = true)
     (a : Nat) (hres : (glomit env s h target).1 = .ok (.ref a)) :
     h.length ≤ a ∧ a < (glomit env s h target).2.length := by
-  have hg := (glomit_spec c env (WFConv_parts hwf).1 s hinit hsub ht).2
+  have hg := (glomit_spec c env hH (WFConv_parts hwf).1 s hinit hsub ht).2
   cases hr : refSpec env h0 s target with
   | err e => rw [hr] at hg; simp only [ResRel] at hg; rw [hg] at hres; cases hres
   | imm v =>
@@ -230,7 +240,7 @@ theorem c15_fresh (env : Env) (hwf : WFConv env = true) {h0 h : Heap} (c : Ctx h
 /-- **Independence.**  Evaluating the same spec object twice: the second result is a
     different object and the second evaluation leaves the first result untouched. -/
 theorem c15_independent (env : Env) (hwf : WFConv env = true) (h0 : Heap) (hc : closedHeap h0 = true)
-    (s : FoldSpec) (hinit : InitOK h0 s.init) (t1 t2 : Val)
+    (hH : HandlerLaw h0 env) (s : FoldSpec) (hinit : InitOK h0 s.init) (t1 t2 : Val)
     (hsub : ∀ k ∈ s.sub, Val.inb h0.length k = true)
     (ht1 : Val.inb h0.length t1 = true) (ht2 : Val.inb h0.length t2 = true) (a1 a2 : Nat) :
     let e1 := glomit env s h0 t1
@@ -238,11 +248,11 @@ theorem c15_independent (env : Env) (hwf : WFConv env = true) (h0 : Heap) (hc : 
     e1.1 = .ok (.ref a1) → e2.1 = .ok (.ref a2) → a1 ≠ a2 ∧ e2.2[a1]? = e1.2[a1]? := by
   intro e1 e2 hr1 hr2
   have c0 := Ctx.base hc
-  have g1 := glomit_spec c0 env (WFConv_parts hwf).1 s hinit hsub ht1
+  have g1 := glomit_spec c0 env hH (WFConv_parts hwf).1 s hinit hsub ht1
   have c1 : Ctx h0 e1.2 := c0.step (Nat.le_refl _) g1.1
-  have f1 : h0.length ≤ a1 ∧ a1 < e1.2.length := c15_fresh env hwf c0 s hinit t1 hsub ht1 a1 hr1
-  have f2 : e1.2.length ≤ a2 ∧ a2 < e2.2.length := c15_fresh env hwf c1 s hinit t2 hsub ht2 a2 hr2
-  have g2 := glomit_spec c1 env (WFConv_parts hwf).1 s hinit hsub ht2
+  have f1 : h0.length ≤ a1 ∧ a1 < e1.2.length := c15_fresh env hwf c0 hH s hinit t1 hsub ht1 a1 hr1
+  have f2 : e1.2.length ≤ a2 ∧ a2 < e2.2.length := c15_fresh env hwf c1 hH s hinit t2 hsub ht2 a2 hr2
+  have g2 := glomit_spec c1 env hH (WFConv_parts hwf).1 s hinit hsub ht2
   exact ⟨by omega, g2.1.2 a1 f1.2⟩
 
 /-- **FoldError.**  A target without a registered `iterate` (int, str, None, a plain object …)
@@ -259,13 +269,14 @@ theorem c15_fold_error (env : Env) (hwf : WFConv env = true) (s : FoldSpec) (h :
 /-- **Checker theorem** — the form in which the property is evaluated on the
     implementation's observation by the correspondence driver: the model's own
     observation passes. -/
-theorem c15_model_checks (env : Env) (hwf : WF env = true) (h0 : Heap) (p : Prog) (targets : List Val)
+theorem c15_model_checks (env : Env) (hwf : WF env = true) (h0 : Heap) (hH : HandlerLaw h0 env)
+    (hiter : env.run "iter" = rawIter) (p : Prog) (targets : List Val)
     (hcase : wfCase h0 targets = true) (hp : (progVals p).all (Val.inb h0.length) = true)
     (hinit : p.initAllocates = true) (hw : p.initWF h0 = true) :
     checkC15 env h0 p targets (observe env h0.length (runProg env p targets h0)) = true := by
   have hcase' := hcase
   simp only [wfCase, Bool.and_eq_true] at hcase'
-  have hs := runProg_spec env hwf h0 hcase'.1 p ⟨allInb hp, hinit, hw⟩ targets (allInb hcase'.2)
+  have hs := runProg_spec env hwf h0 hcase'.1 hH hiter p ⟨allInb hp, hinit, hw⟩ targets (allInb hcase'.2)
   simp only [checkC15, hinit, observe, hs.2, take_of_frame rfl hs.1]
   simp
 
@@ -329,10 +340,20 @@ theorem c15_catalogue_lawful (h0 : Heap) :
     (∀ i : Init, InitOK h0 i → ∃ sv, initSV h0 i = some sv ∧ InitLaw h0 (callInit i) sv) :=
   ⟨pyOp_law h0, fun _ hi => callInit_law hi⟩
 
+/-- the `iterate` handlers of the catalogue (`iter`, reversed, tail, as-a-list, the `items`
+    attribute, a raising one) meet `HandlerLaw` on every closed heap, in the extracted and in the
+    documented environment, under every handler table; `iter` is Python's `iter`. -/
+theorem c15_catalogue_handlers_lawful (h0 : Heap) (hc : closedHeap h0 = true) (H : Hier) (r : Reg) :
+    HandlerLaw h0 genEnv ∧ HandlerLaw h0 specEnv ∧
+    HandlerLaw h0 (envOf H genEnv r) ∧ HandlerLaw h0 (envOf H specEnv r) ∧
+    genEnv.run "iter" = rawIter ∧ specEnv.run "iter" = rawIter :=
+  ⟨runHandler_law hc rfl, runHandler_law hc rfl, runHandler_law hc rfl, runHandler_law hc rfl,
+   by funext h v; simp [genEnv, runHandler], by funext h v; simp [specEnv, runHandler]⟩
+
 /-- **Merge(op=first_wins): first writer wins.**  With the user operator
     `lambda d, v: [d.setdefault(k, x) for k, x in v.items()]` every key maps to the value of the
     FIRST pair (over all items, in order) carrying it. -/
-theorem c15_merge_first_wins (env : Env) (hwf : WFConv env = true) {h0 h : Heap} (c : Ctx h0 h)
+theorem c15_merge_first_wins (env : Env) (hwf : WFConv env = true) {h0 h : Heap} (c : Ctx h0 h) (hH : HandlerLaw h0 env)
     (sub : List Val) (target : Val)
     (hsub : ∀ k ∈ sub, Val.inb h0.length k = true) (ht : Val.inb h0.length target = true)
     (items : List Val) (hitems : refItems env h0 sub target = .ok items)
@@ -340,7 +361,7 @@ theorem c15_merge_first_wins (env : Env) (hwf : WFConv env = true) {h0 h : Heap}
     let out := mergeFn env sub .dict .firstWins h target
     ∃ a es, out.1 = .ok (.ref a) ∧ h.length ≤ a ∧ out.2[a]? = some (.dict "dict" es) ∧
       ∀ k, dictLookup es k = firstPair ds.flatten k := by
-  have hg := (mergeFn_spec c env (WFConv_parts hwf).1 sub .dict .firstWins (InitOK.plain h0 rfl rfl rfl) hsub ht).2
+  have hg := (mergeFn_spec c env hH (WFConv_parts hwf).1 sub .dict .firstWins (InitOK.plain h0 rfl rfl rfl) hsub ht).2
   have hop : refMergeOp h0 .dict .firstWins = .ok .firstWins := rfl
   simp only [refMerge, hop, refSpec, hitems, refKind, withInit, initSV,
     reduce_firstWins_dicts h0 "dict" items ds [] hds, RefRes.ofSV] at hg
@@ -353,7 +374,8 @@ theorem c15_merge_first_wins (env : Env) (hwf : WFConv env = true) {h0 h : Heap}
 /-- **flatten(levels = n+1, init) for EVERY init** (by induction over the levels): `n` times
     `chain.from_iterable`, then exactly what `Flatten(init)` does with the joined items — `init()`
     called once, at the last level only. -/
-theorem c15_levels_any_init (env : Env) (hwf : WF env = true) {h0 h : Heap} (c : Ctx h0 h)
+theorem c15_levels_any_init (env : Env) (hwf : WF env = true) {h0 h : Heap} (c : Ctx h0 h) (hH : HandlerLaw h0 env)
+    (hiter : env.run "iter" = rawIter)
     (sub : List Val) (init : InitArg) (hinit : InitArgOK h0 init) (n : Nat) (target : Val)
     (hsub : ∀ k ∈ sub, Val.inb h0.length k = true) (ht : Val.inb h0.length target = true)
     (items : List Val) (hitems : refItems env h0 sub target = .ok items) :
@@ -363,8 +385,8 @@ theorem c15_levels_any_init (env : Env) (hwf : WF env = true) {h0 h : Heap} (c :
       (match joinN h0 n items with
        | none => .err typeErr
        | some ys => refKind h0 (mkFlatten [] init) ys) := by
-  obtain ⟨hcatch, hchain, _⟩ := WF_parts hwf
-  have hg := flattenFn_spec c env (levels := (n : Int) + 1) (fun _ => hchain) hcatch sub init hinit hsub ht
+  obtain ⟨hcatch, hchain, _⟩ := WF_parts hwf hiter
+  have hg := flattenFn_spec c env hH (levels := (n : Int) + 1) (fun _ => hchain) hcatch sub init hinit hsub ht
   have h0l : (((n : Int) + 1) == 0) = false := by
     simp only [beq_eq_false_iff_ne, ne_eq]; omega
   have hneg : ¬ ((n : Int) + 1) < 0 := by omega
@@ -383,7 +405,7 @@ theorem c15_levels_any_init (env : Env) (hwf : WF env = true) {h0 h : Heap} (c :
     called, nothing is allocated. -/
 theorem c15_handler_error (env : Env) (hwf : WFConv env = true) (s : FoldSpec) (h : Heap) (target t : Val)
     (hn : String) (hsub : evalSub h s.sub target = .ok t) (hlk : env.lk (t.clsName h) = .ok hn)
-    (hrun : runHandler hn h t = none) :
+    (hrun : env.run hn h t = none) :
     glomit env s h target = (.error typeErr, h) ∧ errR env typeErr = .err "TypeError" false := by
   obtain ⟨_, hiter, _⟩ := WFConv_parts hwf
   have hne : env.excTable.isSub "TypeError" "GlomError" = false := by
@@ -465,7 +487,8 @@ theorem c15_reachable_cache_ok (H : Hier) (S : C13.Setup) (d : Bool) (env : Env)
     no pre-existing object changes, and an observer sees, for EVERY evaluation, exactly the
     reference reduction over the iteration the registry's tables name at that moment — the
     registrations made so far, nothing remembered from earlier lookups. -/
-theorem c15_history (H : Hier) (env : Env) (hconv : WFConv env = true) (h0 : Heap) (p : Prog) (events : List Event)
+theorem c15_history (H : Hier) (env : Env) (hconv : WFConv env = true) (h0 : Heap) (hH : HandlerLaw h0 env)
+    (hiter : env.run "iter" = rawIter) (p : Prog) (events : List Event)
     (hcase : wfCase h0 (Event.targets events) = true) (hp : (progVals p).all (Val.inb h0.length) = true)
     (hinit : p.initAllocates = true) (hw : p.initWF h0 = true)
     (r : Reg) (hcr : CacheOK H r)
@@ -474,28 +497,28 @@ theorem c15_history (H : Hier) (env : Env) (hconv : WFConv env = true) (h0 : Hea
     observeAll env h0.length (runProgR H env p events r h0).2.1 [] (runProgR H env p events r h0).1 =
       expectAll H env h0 p events r := by
   simp only [wfCase, Bool.and_eq_true] at hcase
-  obtain ⟨hcatch, hiter, _⟩ := WFConv_parts hconv
+  obtain ⟨hcatch, hconvI, _⟩ := WFConv_parts hconv
   have := runProgR_spec H env hconv h0 hcase.1 p ⟨allInb hp, hinit, hw⟩ events (allInb hcase.2) r hcr
-    (histOK_of_bool hcatch hiter events r hchain)
+    (histOK_of_bool hH hiter hcatch hconvI events r hchain)
   exact ⟨this.1.2, this.2⟩
 
 /-- **Checker theorem for histories** — the form in which the property is evaluated on the
     implementation's observation by the correspondence driver: the observation of the model
     (memo and all) passes the memo-free checker. -/
-theorem c15_history_checks (H : Hier) (env : Env) (hconv : WFConv env = true) (h0 : Heap) (p : Prog)
-    (events : List Event)
+theorem c15_history_checks (H : Hier) (env : Env) (hconv : WFConv env = true) (h0 : Heap)
+    (hH : HandlerLaw h0 env) (hiter : env.run "iter" = rawIter) (p : Prog) (events : List Event)
     (hcase : wfCase h0 (Event.targets events) = true) (hp : (progVals p).all (Val.inb h0.length) = true)
     (hinit : p.initAllocates = true) (hw : p.initWF h0 = true)
     (r : Reg) (hcr : CacheOK H r)
     (hchain : p.usesChain = false ∨ chainIterAlong H env events r = true) :
     let out := runProgR H env p events r h0
     checkC15R H env r h0 p events (observe env h0.length (out.1, out.2.1)) = true := by
-  have hs := c15_history H env hconv h0 p events hcase hp hinit hw r hcr hchain
+  have hs := c15_history H env hconv h0 hH hiter p events hcase hp hinit hw r hcr hchain
   have hf : Frame h0.length h0 (runProgR H env p events r h0).2.1 := by
     simp only [wfCase, Bool.and_eq_true] at hcase
-    obtain ⟨hcatch, hiter, _⟩ := WFConv_parts hconv
+    obtain ⟨hcatch, hconvI, _⟩ := WFConv_parts hconv
     exact (runProgR_spec H env hconv h0 hcase.1 p ⟨allInb hp, hinit, hw⟩ events (allInb hcase.2) r hcr
-      (histOK_of_bool hcatch hiter events r hchain)).1
+      (histOK_of_bool hH hiter hcatch hconvI events r hchain)).1
   simp only [checkC15R, hinit, observe, hs.2, take_of_frame rfl hf]
   simp
 
